@@ -54,6 +54,7 @@ SEP_SELF_EVENT = [
 
 
 def register(reg, repo):
+    reg.ghost_const = {"cur_id"}          # the id of the event being handled: never changes during a handling
     for g, s in (("n_pub", "int"), ("pub_event", "val"), ("pub_heap", "heap"), ("pub_shared", "bool"),
                  ("n_ack", "int"), ("ack_id", "val"), ("issued", "bool"),
                  ("n_bcast", "int"), ("bcast_subject", "str"), ("bcast_msg", "val"), ("bcast_heap", "heap"),
@@ -63,7 +64,8 @@ def register(reg, repo):
                  ("n_sfn", "int"), ("n_cancel", "int"), ("n_exec_task", "int"),
                  ("n_end", "int"), ("n_term", "int"), ("n_herr", "int"), ("herr_type", "val"),
                  ("herr_msg", "val"), ("herr_state", "val"), ("n_collect", "int"), ("n_check_pending", "int"),
-                 ("n_rmcanceller", "int"), ("n_setcanceller", "int")):
+                 ("n_rmcanceller", "int"), ("n_setcanceller", "int"),
+                 ("acked", "bool"), ("held", "bool"), ("cont", "bool"), ("cur_id", "val")):
         reg.ghost(g, s)
 
     # ---- dropped effects: arguments are still evaluated (DESIGN 2.2)
@@ -83,7 +85,9 @@ def register(reg, repo):
                  assumes=["EventDispatcher.publish does not raise and does not modify the event (A2; its own "
                           "contract is checked under C19)"])
     reg.external("self.event_dispatcher.acknowledge", ["id"], modifies=None, result_type="none",
-                 ghost={"n_ack": "n_ack + 1", "ack_id": "id"},
+                 # C03-O1: an event is acknowledged only after its consequences have been handed over
+                 requires=[("issued-before-ack", "issued")],
+                 ghost={"n_ack": "n_ack + 1", "ack_id": "id", "acked": "acked or same(id, cur_id)"},
                  assumes=["EventDispatcher.acknowledge never raises (its broad except), checked under C03"])
     reg.external("self.event_dispatcher.broadcast", ["subject", "message", "carrier_properties"],
                  modifies=None, result_type="none",
@@ -107,6 +111,7 @@ def register(reg, repo):
                   ("self.execution_history[execution_arn]", "execution_arn in self.execution_history")],
         ghost={"n_hist": "n_hist + 1", "hist_type": "update_type", "hist_details": "details",
                "hist_heap": "__heap__", "hist_arn": "execution_arn"},
+        ghost_modifies=[],
         raises={})
 
     # ---- change_state (DESIGN A.2): C03 (publish iff no error), C07 (counter reset), C16 (limit boundary), C09
@@ -151,4 +156,84 @@ def register(reg, repo):
             ("event-shape-kept", "same(event['context'], old(event['context'])) and same(event['data'], old(event['data'])) "
                                  "and same(event['context']['State'], old(event['context']['State']))"),
         ],
+        ghost_modifies=["n_pub", "pub_event", "pub_heap", "pub_shared", "issued", "n_hist", "hist_type",
+                        "hist_details", "hist_heap", "hist_arn"],
         raises={})
+
+
+SP = "asl_workflow_engine/state_engine_paths.py::"
+NOTIFY = SE + "StateEngine.notify.<locals>."
+
+# objects the JSON-data functions never write (region separation of data and engine structures, assumption A8)
+ENGINE_OBJECTS = ["event", "context", "context['State']", "context['Execution']", "state", "self",
+                  "self.executions", "self.execution_history", "self.branch_metadata", "state_machine", "ASL"]
+
+# environment of the closures nested in StateEngine.notify (DESIGN 2.6): what notify has established
+NOTIFY_ENV = {"self": "obj", "event": "dict", "id": "any", "redelivered": "any", "context": "dict", "data": "json",
+              "state": "dict", "state_type": "str", "state_machine": "dict", "ASL": "dict", "current_state": "str",
+              "state_machine_type": "any", "execution_arn": "str", "ctx_state_machine": "dict",
+              "state_machine_arn": "str", "current_state_machine": "dict", "state_path": "list"}
+NOTIFY_ENV_PRE = WF_EVENT + WF_SELF + SEP_SELF_EVENT + [
+    "same(context, event['context'])",
+    "isdict(state)", "not same(state, event)", "not same(state, context)", "not same(state, context['State'])",
+    "not same(state, context['Execution'])", "not same(state, self)",
+    hist_is_list("event['context']['Execution']['Id']"),
+    "isstr(event['context']['State']['Name'])",
+    "not isnone(id)",
+]
+
+
+def register_paths_abstract(reg):
+    """Callers' view of the path functions: deterministic functions named AP / EPT / RP (C01, C07)."""
+    reg.contract(SP + "apply_path", pure=True, ensures=[("is-AP", "same(result, AP(input, context, path))")],
+                 raises={"PathMatchFailure": None, "ParameterPathFailure": None, "Exception*": None},
+                 modifies=None,
+                 assumes=["apply_path is a deterministic function of its arguments (named AP); its laws are C12"])
+    reg.contract(SP + "apply_jsonpath", pure=True, ensures=[("is-AP", "same(result, AP(input, None, path))")],
+                 raises={"PathMatchFailure": None, "Exception*": None}, modifies=None)
+    reg.contract(SP + "evaluate_payload_template", pure=True,
+                 ensures=[("is-EPT", "same(result, EPT(input, context, template))")],
+                 raises={"IntrinsicFailure": None, "PathMatchFailure": None, "ParameterPathFailure": None,
+                         "Exception*": None},
+                 modifies=None,
+                 assumes=["evaluate_payload_template is a deterministic function (named EPT); its laws are C13"])
+    reg.contract(SP + "apply_resultpath", pure=True,
+                 ensures=[("is-RP", "same(retval, RP(input, result, path))")],
+                 raises={"ResultPathMatchFailure": None, "Exception*": None},
+                 modifies="ALL", preserves="PROTECTED",
+                 assumes=["apply_resultpath is a deterministic function (named RP) that writes only objects "
+                          "reachable from its `input` argument (frame proved under C12); JSON data and engine "
+                          "structures do not share objects (A8)"])
+
+
+def register_notify_callees(reg):
+    """Callee contracts for the mutually recursive closures of notify (DESIGN 2.6, A.4, A.5)."""
+    for g, s in (("acked", "bool"), ("held", "bool"), ("cont", "bool"), ("cur_id", "val"),
+                 ("term_event", "val"), ("term_heap", "heap"), ("term_type", "val"), ("term_id", "val"),
+                 ("herr_heap", "heap")):
+        reg.ghost(g, s)
+    reg.contract(
+        NOTIFY + "handle_error", env=NOTIFY_ENV,
+        ghost={"n_herr": "n_herr + 1", "herr_type": "error_type", "herr_msg": "error_message",
+               "herr_state": "state", "herr_heap": "__heap__"},
+        ensures=[("issued", "issued"), ("ack-monotone", "implies(old(acked), acked)"),
+                 ("held-monotone", "implies(old(held), held)"), ("cont-monotone", "implies(old(cont), cont)")],
+        modifies="ALL", raises={},
+        assumes=["externals called by handle_error do not raise (A2)"])
+    reg.contract(
+        NOTIFY + "handle_terminal_state", env=NOTIFY_ENV,
+        ghost={"n_term": "n_term + 1", "term_event": "event", "term_heap": "__heap__", "term_type": "state_type",
+               "term_id": "id"},
+        ensures=[("issued", "issued"),
+                 ("handed-over", "isnone(id) or acked or held"),
+                 ("ack-monotone", "implies(old(acked), acked)"),
+                 ("held-monotone", "implies(old(held), held)"), ("cont-monotone", "implies(old(cont), cont)")],
+        modifies="ALL", raises={})
+
+
+HANDLER_TYPESTATE = [
+    # C03-O2: when the handler returns, its event has been acknowledged, or is held by a join, or a
+    # continuation that owns it has been registered
+    ("handed-over", "acked or held or cont"),
+]
+HANDLER_GHOST_INIT = {"cur_id": "id", "acked": "False", "held": "False", "cont": "False", "issued": "False"}
